@@ -8,7 +8,7 @@ construct is carried into the verified text.
 """
 from .rustlex import lex
 
-KEEP_DERIVES = {"Clone", "Copy", "PartialEq", "Eq", "Hash"}
+KEEP_DERIVES = {"Clone", "Copy", "PartialEq", "Eq", "Hash", "PartialOrd", "Ord"}
 DROP_ATTRS = {"error", "serde", "from", "source", "doc"}
 DROP_STMT_MACROS = {("log", "trace"), ("log", "debug"), ("log", "info"), ("log", "warn"),
                     ("log", "error"), ("eprintln",), ("println",), ("eprint",), ("print",)}
@@ -41,7 +41,7 @@ def _split_args(src, toks, o):
 
 
 # ------------------------------------------------------------------------------------------
-def n4_macros(src, log):
+def n4_macros(src, log, panic_helper=None):
     toks = lex(src)
     edits = []
     i = 0
@@ -66,6 +66,11 @@ def n4_macros(src, log):
                     rep = f"assert(({a[0]}) != ({a[1]}))"
                 edits.append((toks[start].start, toks[c].end, rep))
                 log.append(f"N4 {name}! -> proof obligation {rep[:60]}")
+                i = c + 1
+                continue
+            if name == "panic" and panic_helper:
+                edits.append((toks[start].start, toks[c].end, f"{panic_helper}()"))
+                log.append(f"N4 panic!(..) -> {panic_helper}() [obligation: unreachable]")
                 i = c + 1
                 continue
             if path in DROP_STMT_MACROS:
@@ -384,15 +389,99 @@ def n6_name_receiver(src, log, method):
         log.append(f"N6 E.{method}(..) -> named receiver __vx_i{k_it} [E = {' '.join(chain.split())[:70]}]")
 
 
-DEFAULT_RULES = ("n5", "n4", "n2", "n1")
+def n9_match_guard(src, log):
+    """match E { P if G => { A } _ => B }   ->   match E { P => if G { A } else { B } _ => B }
+    (exactly two arms, the second a bare wildcard: when G is false the only remaining arm is `_`)"""
+    while True:
+        toks = lex(src)
+        hit = None
+        for i, t in enumerate(toks):
+            if not (t.text == "match" and t.kind == "ident"):
+                continue
+            # scrutinee up to `{` at same depth
+            k = i + 1
+            while k < len(toks) and not (toks[k].text == "{" and toks[k].depth == t.depth):
+                if toks[k].kind == "open":
+                    k = toks[k].mate
+                k += 1
+            if k >= len(toks):
+                continue
+            bo, bc = k, toks[k].mate
+            d = toks[bo].depth + 1
+            # first arm: pattern [if guard] => body
+            a = bo + 1
+            g = None
+            while a < bc and not (toks[a].text == "=>" and toks[a].depth == d):
+                if toks[a].text == "if" and toks[a].kind == "ident" and toks[a].depth == d:
+                    g = a
+                if toks[a].kind == "open":
+                    a = toks[a].mate
+                a += 1
+            if g is None or a >= bc:
+                continue
+            arrow1 = a
+            if toks[arrow1 + 1].text != "{":
+                raise Unsupported("guarded match arm without block body")
+            b1o, b1c = arrow1 + 1, toks[arrow1 + 1].mate
+            nxt = b1c + 1
+            if toks[nxt].text == ",":
+                nxt += 1
+            if not (toks[nxt].text == "_" and toks[nxt + 1].text == "=>"):
+                raise Unsupported("guarded match arm not followed by a bare wildcard arm")
+            # second arm expression up to `,` or end of match
+            e0 = nxt + 2
+            e1 = e0
+            while e1 < bc and not (toks[e1].text == "," and toks[e1].depth == d):
+                if toks[e1].kind == "open":
+                    e1 = toks[e1].mate
+                e1 += 1
+            if e1 < bc and any(toks[x].depth == d for x in range(e1 + 1, bc)):
+                raise Unsupported("guarded match with more than two arms")
+            hit = (g, arrow1, b1o, b1c, e0, e1 - 1)
+            break
+        if hit is None:
+            return src
+        g, arrow1, b1o, b1c, e0, e1 = hit
+        guard = src[toks[g + 1].start:toks[arrow1 - 1].end]
+        other = src[toks[e0].start:toks[e1].end]
+        edits = [(toks[g].start, toks[arrow1].start, ""),                      # drop `if G `
+                 (toks[b1o].start, toks[b1o].start, f"if {guard} "),              # `=> if G {A}`
+                 (toks[b1c].end, toks[b1c].end, f" else {{ {other} }}")]
+        src = _apply(src, edits)
+        log.append(f"N9 match guard `if {' '.join(guard.split())}` -> if/else inside the arm (fallback arm `_ => {' '.join(other.split())[:30]}`)")
+
+
+def nvis(src, log):
+    """pub(crate) / pub(super) / pub(in ..)  ->  pub   (a single-file unit has one crate and one module;
+    widening visibility cannot change behaviour)"""
+    toks = lex(src)
+    edits = []
+    for i, t in enumerate(toks):
+        if t.text == "pub" and t.kind == "ident" and i + 1 < len(toks) and toks[i + 1].text == "(":
+            c = toks[i + 1].mate
+            inner = src[toks[i + 1].end:toks[c].start].strip()
+            if inner in ("crate", "super", "self") or inner.startswith("in "):
+                edits.append((toks[i + 1].start, toks[c].end, ""))
+    if edits:
+        log.append(f"NV {len(edits)} restricted visibilities -> pub")
+    return _apply(src, edits)
+
+
+DEFAULT_RULES = ("n5", "nvis", "n4", "n2", "n1")
 
 
 def normalise(src, rules, log):
     for r in rules:
         if r == "n5":
             src = n5_derives(src, log)
+        elif r == "n9":
+            src = n9_match_guard(src, log)
+        elif r == "nvis":
+            src = nvis(src, log)
         elif r == "n4":
             src = n4_macros(src, log)
+        elif r == "n4panic":
+            src = n4_macros(src, log, panic_helper="vx_panic")
         elif r == "n2":
             src = n2_let_chains(src, log)
         elif r == "n1":
